@@ -95,7 +95,9 @@ class OperatorTemplate(AbstractBaseTemplate):
         if variables:
             variables = _update_variables(self.variables, variables)
         else:
-            variables = self.variables
+            # the derived template gets its own dictionary: variables that its equations no longer use are removed
+            # below, and that must not reach the parent
+            variables = dict(self.variables)
 
         rogue_variables = set()
         for var in variables:
